@@ -13,7 +13,7 @@ THEOREMS = [
     "entropy_nonpositive_bar_errors", "entropy_keep_inf_needs_value",
 ]
 RULE = ("seeded generator over classes {single array, list of diagrams, equal lengths, infinite bars "
-        "dropped / substituted, keep_inf without value, non-positive bar, scales 1e-6..1e6, integer-dtype arrays, exactly one remaining bar (valid or of non-positive length)} x flag "
+        "dropped / substituted, keep_inf without value, non-positive bar, scales 2^-300..2^300 (whole barcodes in tiny / huge units), integer-dtype arrays, exactly one remaining bar (valid or of non-positive length)} x flag "
         "combinations, caps of exactly 0 on barcodes born below 0; call histories in one process on shared array objects (cap sweeps over one barcode, barcodes reused "
         "across lists, rejected calls in between); a case is non-trivial when the call succeeds on a diagram with >= 2 finite bars "
         "of different lengths, or exercises an error / infinite-bar branch; distinct = distinct JSON input")
@@ -62,10 +62,12 @@ def generate(rng, tier):
     cases = []
     for i in range(n_cases):
         cls = rng.choice(["single", "single", "list", "equal", "inf_drop", "inf_subst", "inf_noval",
-                          "badbar", "zerobar", "scale", "intdtype", "intdtype", "onebar", "onebar_bad", "onebar_bad"])
+                          "badbar", "zerobar", "scale", "scale", "intdtype", "intdtype", "onebar", "onebar_bad", "onebar_bad"])
         scale = 1.0
         if cls == "scale":
-            scale = rng.choice([1e-6, 1e-3, 1e3, 1e6, 2.0 ** 20, 2.0 ** -20])
+            # incl. whole barcodes in tiny / huge units (total length far below any absolute epsilon)
+            scale = rng.choice([1e-6, 1e-3, 1e3, 1e6, 2.0 ** 20, 2.0 ** -20, 2.0 ** -60, 1e-13, 1e-15, 2.0 ** -200, 2.0 ** -300,
+                                2.0 ** 100, 2.0 ** 300, 1e-9, 1e-11])
         normalize = rng.random() < 0.4
         keep_inf, val_inf = False, None
         nd = 1 if cls != "list" else rng.randint(2, 4)
